@@ -12,6 +12,8 @@
 -/
 import PgModel.HyperSpec
 import PgProofs.Hyper
+import PgProofs.HyperEnum
+import PgProofs.HyperDist
 namespace Pg.C13
 
 /-! ## Decode -/
@@ -112,5 +114,94 @@ theorem C13_inverse_needs_distinguishable :
   have h2 : encode noFilter tAmbiguous (.const (.int 1)) = .ok (.mk (some (.idx 0)) []) := by rfl
   rw [h2] at h1
   cases h1
+
+/-! ## A decidable sufficient condition for "distinguishable" -/
+
+/-- If, in every selected choice, no earlier candidate matches the outermost shape (atom, container
+kind and size, float range, filtered-out placeholder) of anything a later candidate decodes to,
+the candidates are distinguishable. This is the condition the harness evaluates
+(`head_distinct`) before it demands `encode(decode(d)) == d` of the real code. -/
+theorem C13_headDistinct_sufficient (W : Nat → Bool) (t : Tmpl)
+    (hwf : wfT t = true) (h : headDistinct W t = true) : DistT W t :=
+  headDistinct_sound W t hwf h
+
+/-- The inverse law with decidable hypotheses only. -/
+theorem C13_inverse_decidable (W : Nat → Bool) (t : Tmpl) (d : DNA) (v : Tmpl)
+    (hwf : wfT t = true) (hhd : headDistinct W t = true) (hnf : nfD d = true)
+    (hv : validG true (dnaSpec W t) d = true) (hdec : decode W t d = .ok v) :
+    encode W t v = .ok d :=
+  C13_inverse_partial W t d v hwf (headDistinct_sound W t hwf hhd) hnf hv hdec
+
+/-- Decoding is injective on strictly valid DNA objects of a distinguishable template: different
+DNAs give different values. -/
+theorem C13_decode_injective (W : Nat → Bool) (t : Tmpl) (d₁ d₂ : DNA) (v : Tmpl)
+    (hwf : wfT t = true) (hdist : DistT W t)
+    (hnf₁ : nfD d₁ = true) (hv₁ : validG true (dnaSpec W t) d₁ = true) (h₁ : decode W t d₁ = .ok v)
+    (hnf₂ : nfD d₂ = true) (hv₂ : validG true (dnaSpec W t) d₂ = true) (h₂ : decode W t d₂ = .ok v) :
+    d₁ = d₂ := by
+  have e₁ := C13_inverse_partial W t d₁ v hwf hdist hnf₁ hv₁ h₁
+  have e₂ := C13_inverse_partial W t d₂ v hwf hdist hnf₂ hv₂ h₂
+  rw [e₁] at e₂
+  cases e₂
+  rfl
+
+/-! ## Iteration -/
+
+/-- For a finite space, `pg.iter` (sweeping) yields exactly `space_size` values. (`enumG` is the
+model of the sweep, `sizeG` of `space_size`; both are tied to the code by the correspondence
+run. That the swept DNAs are pairwise different valid DNA objects is C11's theorem; together with
+`C13_decode_injective` it gives pairwise different values.) -/
+theorem C13_iter_count (W : Nat → Bool) (t : Tmpl) (n : Nat)
+    (h : sizeG (dnaSpec W t) = some n) : (iter W t).length = n := by
+  simp [iter, enumG_length _ n h]
+
+/-! ## Encode of arbitrary values (beyond the property text) -/
+
+/-- `encode t v = ok d → d` is valid — not demanded by the property, and false on the code:
+`Choices.encode` does not check the `distinct` / `sorted` constraints. -/
+def C13_encode_sound_Full : Prop :=
+  ∀ (W : Nat → Bool) (t v : Tmpl) (d : DNA),
+    wfT t = true → encode W t v = .ok d → validG false (dnaSpec W t) d = true
+
+/-- `pg.manyof(2, [1, 2, 3])` (distinct) encodes `[1, 1]` to `DNA([0, 0])`, which `validate` rejects. -/
+theorem C13_encode_sound_counterexample : ¬ C13_encode_sound_Full := by
+  intro h
+  have := h noFilter
+    (.choice 1 false 2 [.const (.int 1), .const (.int 2), .const (.int 3)] true false)
+    (.node .list [.const (.int 1), .const (.int 1)])
+    (.mk none [.mk (some (.idx 0)) [], .mk (some (.idx 0)) []]) (by decide) (by rfl)
+  revert this
+  decide
+
+/-! ## Non-vacuity -/
+
+/-- `pg.Dict(x=pg.oneof([pg.manyof(2, [pg.oneof([4, 5]), 6, 7]), 'bar', pg.floatv(0, 1)]), y=pg.floatv(2, 3))`:
+placeholders nested in candidates of placeholders. -/
+def tNested : Tmpl :=
+  .node (.dict ["x", "y"])
+    [.choice 1 true 1
+      [.choice 2 false 2 [.choice 3 true 1 [.const (.int 4), .const (.int 5)] true false,
+                          .const (.int 6), .const (.int 7)] true false,
+       .const (.str "bar"),
+       .floatv 4 ⟨0, 0⟩ ⟨1, 0⟩] true false,
+     .floatv 5 ⟨2, 0⟩ ⟨3, 0⟩]
+
+/-- `DNA([(0, [(0, 1), 2]), 2.5])`. -/
+def dNested : DNA :=
+  .mk none [.mk (some (.idx 0)) [.mk (some (.idx 0)) [.mk (some (.idx 1)) []], .mk (some (.idx 2)) []],
+            .mk (some (.flt ⟨5, 1⟩)) []]
+
+example : wfT tNested = true := by decide
+example : headDistinct noFilter tNested = true := by decide
+example : nfD dNested = true := by decide
+example : validG true (dnaSpec noFilter tNested) dNested = true := by decide
+example : decode noFilter tNested dNested =
+    .ok (.node (.dict ["x", "y"]) [.node .list [.const (.int 5), .const (.int 7)], .const (.flt ⟨5, 1⟩)]) := by rfl
+/-- with a filter that selects the outer choice and `y` only (the inner placeholders stay) -/
+example : headDistinct (fun tag => tag == 1 || tag == 5) tNested = true := by decide
+example : validG true (dnaSpec (fun tag => tag == 1 || tag == 5) tNested)
+    (.mk none [.mk (some (.idx 0)) [], .mk (some (.flt ⟨5, 1⟩)) []]) = true := by decide
+example : sizeG (dnaSpec noFilter (.choice 1 false 2 [.const (.int 1), .const (.int 2), .const (.int 3)] true true)) = some 3 := by
+  decide
 
 end Pg.C13
